@@ -86,6 +86,7 @@ type Exec struct {
 	depth    int
 	maxDepth int
 	hashApps []hashApp
+	hashIn   [][]Value
 	events   []string
 
 	globals  map[*ssa.Global]*Value
@@ -106,7 +107,9 @@ type Exec struct {
 	localSat    int
 	localUnsat  int
 	solGen      int
+	solPC       []*Term
 	cur         *frame
+	stepProf    map[*ssa.Function]int
 	lastPanicWhere string
 	snaps       map[*ssa.Package]*pkgSnapshot
 	pathCount   int
@@ -138,11 +141,33 @@ func NewExec(p *Program, timeoutMs int) *Exec {
 	ex.sharedIn = map[*ssa.Package]bool{}
 	ex.maxSteps = 20_000_000
 	ex.maxDepth = 400
+	if os.Getenv("SYMX_STEPPROF") != "" {
+		ex.stepProf = map[*ssa.Function]int{}
+	}
 	ex.funcs = map[string]int{}
 	return ex
 }
 
-func (ex *Exec) Close() { ex.sol.Close() }
+func (ex *Exec) Close() {
+	ex.sol.Close()
+	if ex.stepProf != nil {
+		type kv struct {
+			f *ssa.Function
+			n int
+		}
+		var l []kv
+		for f, n := range ex.stepProf {
+			l = append(l, kv{f, n})
+		}
+		sort.Slice(l, func(i, j int) bool { return l[i].n > l[j].n })
+		for i, e := range l {
+			if i >= 25 {
+				break
+			}
+			fmt.Fprintf(os.Stderr, "STEPPROF %10d %s\n", e.n, e.f)
+		}
+	}
+}
 
 func (ex *Exec) resetPath(item WorkItem) {
 	ex.pathCount++
@@ -152,10 +177,7 @@ func (ex *Exec) resetPath(item WorkItem) {
 		ex.tb = NewTermTable()
 		ex.sol.tb = ex.tb
 		ex.sol.Reset()
-	} else if ex.sol.Level() > 0 {
-		ex.sol.Pop()
 	}
-	ex.sol.Push()
 	ex.prefix = item.Prefix
 	ex.pos = 0
 	ex.trace = ex.trace[:0]
@@ -176,6 +198,7 @@ func (ex *Exec) resetPath(item WorkItem) {
 	ex.depth = 0
 	ex.fresh = 0
 	ex.hashApps = nil
+	ex.hashIn = nil
 	ex.events = nil
 	ex.globals = map[*ssa.Global]*Value{}
 	ex.inited = map[*ssa.Package]bool{}
@@ -202,13 +225,27 @@ func (ex *Exec) addPC(c *Term) {
 	ex.notePC(c)
 }
 
+// syncPC brings the solver's assertion stack (one scope per path-condition
+// entry) in line with this path's condition, keeping the prefix shared
+// with the previously explored path.
 func (ex *Exec) syncPC() {
 	if ex.solGen != ex.sol.Gen {
+		// the solver lost its state (restart or reset)
 		ex.solGen = ex.sol.Gen
-		ex.pcSent = 0
+		ex.solPC = ex.solPC[:0]
 	}
-	for ; ex.pcSent < len(ex.pc); ex.pcSent++ {
-		ex.sol.Assert(ex.pc[ex.pcSent])
+	i := 0
+	for i < len(ex.solPC) && i < len(ex.pc) && ex.solPC[i] == ex.pc[i] {
+		i++
+	}
+	for len(ex.solPC) > i {
+		ex.sol.Pop()
+		ex.solPC = ex.solPC[:len(ex.solPC)-1]
+	}
+	for ; i < len(ex.pc); i++ {
+		ex.sol.Push()
+		ex.sol.Assert(ex.pc[i])
+		ex.solPC = append(ex.solPC, ex.pc[i])
 	}
 }
 
@@ -224,16 +261,19 @@ func (ex *Exec) checkWith(extra *Term) (Result, *Model) {
 	}
 	gen := ex.sol.Gen
 	r := ex.sol.Check()
-	if r == Unknown && ex.sol.Gen != gen {
-		// the solver was killed by the watchdog and restarted clean:
-		// retry once on the fresh process
-		ex.sol.Pop()
+	if ex.sol.Gen != gen {
+		// the solver was killed by the watchdog and restarted clean (no
+		// scopes, no assertions): retry once on the fresh process
 		ex.syncPC()
 		ex.sol.Push()
 		if extra != nil {
 			ex.sol.Assert(extra)
 		}
+		gen = ex.sol.Gen
 		r = ex.sol.Check()
+		if ex.sol.Gen != gen {
+			return Unknown, nil
+		}
 	}
 	var m *Model
 	if r == Sat {
